@@ -49,11 +49,12 @@ def flags_of(mask: int, names=FLAGS) -> dict:
 def run_tok(data, opts: dict, text_len: int, count: bool = False):
     """Run the real tokenizer to exhaustion.  Returns (result, steps, harness_problem)."""
     cls = CountingTokenizer if count else Tokenizer
-    tok = cls(data, None, **opts)
     out = []
     problem = None
     limit = text_len + 3
+    tok = None
     try:
+        tok = cls(data, None, **opts)
         while True:
             t, v = tok()
             if t is Token.EOF:
@@ -76,7 +77,15 @@ def run_tok(data, opts: dict, text_len: int, count: bool = False):
     except Exception as exc:  # noqa: BLE001 - totality clause: nothing else may escape
         problem = ('foreign_exception', f'{type(exc).__name__}: {exc}')
         out.append(('EXC', type(exc).__name__, None))
-    return out, (tok.steps if count else 0), problem
+    return out, (tok.steps if count and tok is not None else 0), problem
+
+
+def _decode_fault_source(chunks: list, k: int):
+    for i, c in enumerate(chunks + ['']):
+        if i == k:
+            raise UnicodeDecodeError('utf-8', b'\xff\xfe', 0, 1, 'invalid start byte')
+        yield c
+    raise UnicodeDecodeError('utf-8', b'\xff\xfe', 0, 1, 'invalid start byte')
 
 
 def check_text(acc: core.Acc, text: str, opts: dict, all_chunkings: bool = True) -> None:
@@ -106,6 +115,18 @@ def check_text(acc: core.Acc, text: str, opts: dict, all_chunkings: bool = True)
     deliveries.append([x for c in text for x in ('', c, '')])
     deliveries.append('<file-after-header>')
     deliveries.append('<other-tokenizer-pending>')
+    if n <= 3:
+        # environment answers: the file iterator fails to decode at its k-th read (a binary / wrongly encoded file); the tokenizer
+        # reports that as its own error type whichever read it is, after the tokens of the text delivered before it
+        for k in range(0, n + 1):
+            got, _, problem = run_tok(_decode_fault_source(list(text), k), opts, n)
+            acc.evaluations += 1
+            want_prefix = [r for r in ref if r[0] not in ('EOF', 'ERR', 'EXC')]
+            body = [g for g in got if g[0] not in ('ERR',)]
+            if problem or not got or got[-1][0] != 'ERR' or body != want_prefix[:len(body)]:
+                acc.fail('tok_decode_fault', dict(case, chunks=f'one character per read, read #{k} raises UnicodeDecodeError'),
+                         f'text={text!r} opts={opts}: the source failed to decode at read #{k}: {problem or got}\n (whole text: {ref})')
+                break
     for chunks in deliveries:
         if chunks == '<other-tokenizer-pending>':
             # another tokenizer object is alive with a peeked / pushed-back token while this text is read
@@ -162,6 +183,10 @@ KV_DEFAULT = {'newline_keys': False, 'newline_values': True, 'allow_escapes': Tr
               'single_block': False}
 
 
+class ForeignError(TokenSyntaxError):
+    """Another format's error class (what a caller's tokenizer may have been built with)."""
+
+
 def kv_dump(kv) -> object:
     if not isinstance(kv, Keyvalues):
         return ('NOTKV', repr(kv))
@@ -170,10 +195,11 @@ def kv_dump(kv) -> object:
     return (kv._real_name, kv._value, kv.line_num)
 
 
-def run_kv(data, opts: dict):
+def run_kv(data, opts: dict, dump: bool = True):
     try:
         res = Keyvalues.parse(data, 'f', **opts)
-        return ('OK', kv_dump(res)), None
+        # (the dump recurses over the tree: not used for the very deep documents of the repetition shards)
+        return ('OK', kv_dump(res) if dump else isinstance(res, Keyvalues)), None
     except KeyValError as exc:
         return ('ERR', exc.mess, exc.line_num), None
     except TokenSyntaxError as exc:
@@ -198,6 +224,16 @@ def check_kv(acc: core.Acc, items: tuple, opts: dict) -> None:
                  exc=problem[1].split(':')[0], skipped_block=('[!f]' in items), flag_opts=nondefault)
         return
     n = len(text)
+    # a ready-made tokenizer handed to parse(): whatever error class it was built with, parse() reports KeyValError
+    for ename, ecls in (('default', TokenSyntaxError), ('foreign', ForeignError), ('keyvalerror', KeyValError)):
+        for chunked in (False, True):
+            tk = Tokenizer(list(text) if chunked else text, 'other', ecls, string_bracket=True, allow_escapes=opts['allow_escapes'])
+            got, problem = run_kv(tk, {k: v for k, v in opts.items() if k != 'allow_escapes'})
+            acc.evaluations += 1
+            if got != ref or problem:
+                acc.fail('kv_tokenizer_route', dict(case, route=f'Tokenizer(error={ename}, chunked={chunked})'),
+                         f'text={text!r} opts={opts}\n from the text: {ref}\n from a ready-made Tokenizer built with error class {ecls.__name__}: {got} {problem or ""}')
+                return
     deliveries = [list(text)] + [[text[:i], text[i:]] for i in range(1, n)]
     for chunks in deliveries:
         got, problem = run_kv(iter(chunks), opts)
@@ -210,6 +246,12 @@ def check_kv(acc: core.Acc, items: tuple, opts: dict) -> None:
 
 # ---------------------------------------------------------------------------------------------
 # shards
+
+REP_UNITS = ['/* */ ', '/* */\n', '//c\n', '\n', '\r\n', ' ', '\t', '"a" "b"\n', '"a\\n"', '[f]', '(x)', '{', '}', '{ }\n', 'a+b ', '#', ':', '=', ',', '\ufeff',
+             '"a"\n{\n', '/**/', '/*\n*/', '// \\\n']
+REP_KV_UNITS = {'"a" "b"\n': '', '//c\n': '', '\n': '', '"a"\n{\n': '}\n', '/* */\n': '', ' ': '', '"a" "b" [f]\n': ''}
+REP_MASKS = [0, 127] + [1 << i for i in range(7)] + [127 ^ (1 << i) for i in range(7)]
+
 
 def shard(spec) -> core.Acc:
     acc = core.Acc()
@@ -232,6 +274,34 @@ def shard(spec) -> core.Acc:
                 opts = flags_of(m, fl)
                 check_text(acc, text, opts, True)
         acc.count('reduced_' + name, len(alpha) ** rest)
+    elif kind == 'rep':
+        _, unit, count = spec
+        text = unit * count
+        for m in REP_MASKS:
+            opts = flags_of(m)
+            ref, steps, problem = run_tok(text, opts, len(text), count=True)
+            acc.evaluations += 1
+            acc.nontrivial += 1
+            case = {'rep_unit': unit, 'rep_count': count, 'opts': opts}
+            if problem:
+                acc.fail('tok_' + problem[0], case, f'{unit!r} x {count} opts={opts}: {problem[1]}', gen='rep')
+                continue
+            if steps > 2 * len(text) + 8:
+                acc.fail('tok_steps', case, f'{unit!r} x {count} opts={opts}: {steps} character fetches for {len(text)} characters', gen='rep')
+            for dname, data in (('one unit per chunk', [unit] * count), ('units with 3 empty chunks between', [x for _ in range(count) for x in (unit, '', '', '')]),
+                                ('cut inside every unit', [x for _ in range(count) for x in (unit[:1], unit[1:])])):
+                got, _, problem = run_tok(iter(data), opts, len(text))
+                acc.evaluations += 1
+                if got != ref or problem:
+                    acc.fail('tok_chunk_dependent', dict(case, chunks=dname), f'{unit!r} x {count} opts={opts}: delivered as {dname}: '
+                             f'{problem or "differs from the whole text"}; last tokens {got[-2:]} vs {ref[-2:]}', gen='rep')
+                    break
+        for opts in ([dict(KV_DEFAULT)] if unit in REP_KV_UNITS else []):
+            ref, problem = run_kv(text + REP_KV_UNITS[unit] * count, opts, dump=False)
+            acc.evaluations += 1
+            if problem or ref[0] not in ('OK', 'ERR'):
+                acc.fail('kv_' + (problem or ('?', ''))[0], {'rep_unit': unit, 'rep_count': count, 'opts': opts, 'kv': True},
+                         f'Keyvalues.parse({unit!r} x {count}) -> {problem}', gen='rep')
     elif kind in ('kv', 'kvl'):
         _, prefix, length, optsets = spec
         rest = length - len(prefix)
@@ -286,6 +356,10 @@ def run(ctx: core.Ctx) -> None:
         else:
             for c in itertools.product(KV_LINES, repeat=2):
                 shards.append(('kvl', c, n, optsets))
+    # (c) counts: one unit repeated many times (a run of comments, blank lines, brackets ...), 16 option sets, 4 deliveries
+    for unit in list(dict.fromkeys(REP_UNITS + list(REP_KV_UNITS))):
+        for count in ((400, 1100) if q else (400, 1100, 5000)):
+            shards.append(('rep', unit, count))
     # seed only rotates the order in which shards are handed out
     k = ctx.seed % len(shards)
     shards = shards[k:] + shards[:k]
@@ -295,13 +369,16 @@ def run(ctx: core.Ctx) -> None:
                 f'of length 4..{RL} over 5 reduced 6/7-character alphabets x the options that feature reads x every '
                 f'chunking; Keyvalues.parse: every sequence of <= {KL} lexical items from {len(KV_ITEMS)} x parse-option '
                 f'sets (all 32 for short sequences, default + single flips beyond), and every sequence of <= {KLL} line-level items from {len(KV_LINES)} x whole / per character / every '
-                f'single cut.  Non-trivial = produces at least one token or an error (tokenizer) / parses (Keyvalues). '
+                f'single cut, and from a ready-made tokenizer built with another error class; each short text also with the source failing to decode at its k-th read; {len(REP_UNITS)} syntactic units repeated 400 / 1100{"" if q else " / 5000"} times x 16 option sets x 4 deliveries.  Non-trivial = produces at least one token or an error (tokenizer) / parses (Keyvalues). '
                 f'Enumeration yields each (text, options) pair once.')
     ctx.coverage_extra['schedules'] = 'every chunking of every enumerated string'
 
 
 def replay(case: dict) -> list:
     acc = core.Acc()
+    if 'rep_unit' in case:
+        sub = shard(('rep', case['rep_unit'], case['rep_count']))
+        return [f for f in sub.all_failures() if f.case.get('opts') == case['opts'] and f.case.get('chunks') == case.get('chunks')]
     if 'kv_items' in case:
         check_kv(acc, tuple(case['kv_items']), case['opts'])
     else:
